@@ -74,7 +74,7 @@ impl<'a> EncodeBuf<'a> {
          ensures=[Clause('E4_a_fill_appends_exactly_cnt_copies', '(*final(self).buf)@ == (*old(self).buf)@ + Seq::new(cnt as nat, |i: int| val) && ' + fr, PE)])
     u.fn(B, 'remaining_mut', within=he, display='EncodeBuf::remaining_mut', props=PE,
          ensures=[Clause('E5_as_much_room_as_the_send_buffer_has', 'r as int == usize::MAX as int - self.written().len()', PE)])
-    u.fn(B, 'advance_mut', within=he, display='EncodeBuf::advance_mut', props=PE,
+    u.fn(B, 'advance_mut', within=he, display='EncodeBuf::advance_mut', props=PE, requires=['cnt <= old(self).buf.spare@'],   # the safety condition of this unsafe fn (BufMut::advance_mut)
          ensures=[Clause('E6_advancing_keeps_every_byte_written_so_far', '(*final(self).buf)@.len() == (*old(self).buf)@.len() + cnt && (*final(self).buf)@.take((*old(self).buf)@.len() as int) == (*old(self).buf)@ && ' + fr, PE)])
     u.fn(B, 'chunk_mut', within=he, display='EncodeBuf::chunk_mut', props=PE,
          ensures=[Clause('E7_handing_out_spare_capacity_writes_nothing', '(*final(self).buf)@ == (*old(self).buf)@ && ' + fr, PE)])
